@@ -850,9 +850,118 @@ def directed_cases():
     return out
 
 
+
+# ---------------------------------------------------------------- unsized char[] columns (statement-level oracle only)
+def _unsized_case(rng):
+    cols = [('id', 'int')]
+    for nm in rng.sample(['name', 'tag', 'note'], rng.randrange(1, 4)):
+        cols.append((nm, 'char[]'))
+    if rng.random() < 0.5:
+        cols.insert(rng.randrange(1, len(cols) + 1), ('v', 'double'))
+
+    def word(maxlen):
+        n = rng.randrange(1, maxlen + 1)
+        return ''.join(rng.choice('abcxyzABC019_-+.') for _ in range(n))
+
+    def row(k, maxlen):
+        return [k if ty == 'int' else (k * 0.5 if ty == 'double' else word(maxlen)) for _, ty in cols]
+    rows0 = [row(i, 4) for i in range(rng.randrange(0, 4))]
+    ops = []
+    k = len(rows0)
+    for _ in range(rng.randrange(1, 7)):
+        r = rng.random()
+        if r < 0.65:
+            nrow = rng.randrange(1, 3)
+            ops.append({'k': 'append', 'rows': [row(k + i, rng.choice([3, 6, 12, 20])) for i in range(nrow)],
+                        'key': rng.choice(['upper', 'lower'])})
+            k += nrow
+        elif r < 0.85:
+            ops.append({'k': 'copy'})
+        else:
+            ops.append({'k': 'reread'})
+    return {'stream': 'unsized', 'table': rng.choice(['OBJ', 'Things', 'row']), 'cols': cols, 'rows0': rows0, 'ops': ops,
+            'raw': rng.random() < 0.25}
+
+
+def _unsized_run(ctx, case):
+    """a table read from a file whose string columns are declared `char x[]` (sized by the longest value); appended strings
+    may be longer than anything seen so far.  Oracle: object == fresh read == expected rows after every operation."""
+    from pydl.pydlutils.yanny import yanny
+    d = os.path.join(ctx.tmpdir(), 'u%d' % next(_counter))
+    os.makedirs(d)
+    T = case['table']
+    cols = case['cols']
+    text = 'typedef struct {\n' + ''.join((' char %s[];\n' % n) if ty == 'char[]' else (' %s %s;\n' % (ty, n)) for n, ty in cols) + '} %s;\n\n' % T.upper()
+    for r in case['rows0']:
+        text += T.upper() + ' ' + ' '.join(str(v) for v in r) + '\n'
+    fn = os.path.join(d, 'a0.par')
+    with open(fn, 'w') as f:
+        f.write(text)
+    exp = [list(r) for r in case['rows0']]
+    ncopy = 0
+
+    def view(par):
+        if par.size(T.upper()) == 0 and not exp:
+            return []
+        tab = par[T.upper()]
+        out = []
+        for i in range(len(exp)):
+            r = []
+            for n, ty in cols:
+                v = tab[n][i]
+                if ty == 'char[]':
+                    v = v.decode() if isinstance(v, bytes) else str(v)
+                elif ty == 'int':
+                    v = int(v)
+                else:
+                    v = float(v)
+                r.append(v)
+            out.append(r)
+        return out
+
+    try:
+        par = yanny(fn, raw=case['raw'])
+        for step, op in enumerate(case['ops']):
+            if op['k'] == 'append':
+                key = T.upper() if op['key'] == 'upper' else T.lower()
+                par.append({key: {n: [r[j] for r in op['rows']] for j, (n, ty) in enumerate(cols)}})
+                exp += [list(r) for r in op['rows']]
+            elif op['k'] == 'copy':
+                ncopy += 1
+                par.write(os.path.join(d, 'a%d.par' % ncopy))
+            else:
+                par = yanny(par.filename, raw=case['raw'])
+            for who, p in (('object', par), ('fresh read of its file', yanny(par.filename, raw=case['raw']))):
+                got = view(p)
+                if got != exp:
+                    k = next((i for i in range(min(len(got), len(exp))) if got[i] != exp[i]), min(len(got), len(exp)))
+                    return ('unsized:%s-diverges' % who.split()[0],
+                            'after op %d (%s) the %s has row %d = %r, expected %r' % (
+                                step, op['k'], who, k, got[k] if k < len(got) else None, exp[k] if k < len(exp) else None))
+    except Exception as e:
+        return ('unsized:exception:' + core.exc_kind(e), 'history on a table with char[] columns raised %r' % (e,))
+    finally:
+        shutil.rmtree(d, ignore_errors=True)
+    return None
+
+
+def _unsized(ctx, cases=None):
+    rng = ctx.rng
+    if cases is None:
+        cases = [_unsized_case(rng) for _ in range(ctx.n(150, 4000))]
+    for c in cases:
+        ctx.seen(c)
+        ctx.count('unsized:' + ('raw' if c['raw'] else 'normal'))
+        bad = _unsized_run(ctx, c)
+        if bad:
+            small = dict(c, ops=core.shrink_list(c['ops'], lambda ops: (_unsized_run(ctx, dict(c, ops=ops)) or ('',))[0] == bad[0], minlen=1))
+            ctx.violate(bad[0], (_unsized_run(ctx, small) or bad)[1], small)
+
+
 def run(ctx):
     core.audit(ctx, LEAN_MODULES, THEOREMS)
     _ensure_driver()
+    _unsized(ctx)
     rng = ctx.rng
     cases = directed_cases()
     n = ctx.n(1200, 20000)
